@@ -289,6 +289,8 @@ def result_used(fb, ctx, body, call, rule, instance, key):
     """USED: the Result/bool of this call is consumed by a branch (directly or through `?`) or returned to the caller."""
     uses = result_branches(fb, body, call)
     kinds = {u[0] for u in uses}
+    if call.dest is not None and call.dest["l"] == 0 and not call.dest.get("p"):
+        kinds.add("returned")      # the call's value is the function's (closure's) own result
     where = f"{body['file']}:{call.ln}"
     if "branch" in kinds or "returned" in kinds:
         ctx.ok(rule, instance, where, f"result of {short(call.callee)} consumed by {sorted(kinds)}")
